@@ -105,16 +105,14 @@ def insert_effects(mod):
             kws = {k.arg: k.value for k in c.keywords}
             if args[:2] != ['self.live_points["logL"]', 'live_point["logL"]'] or len(args) > 3 or \
                     set(kws) - {"side"}:
-                effs.append(("Unknown",) + pos)
-                continue
+                raise Declined(f"insert_live_point: no rule for `{pos[2]}`")
             sd = kws.get("side") if "side" in kws else (c.args[2] if len(c.args) == 3 else None)
             if sd is None:
                 side = "SLeft"
             elif isinstance(sd, ast.Constant) and sd.value in ("left", "right"):
                 side = "SLeft" if sd.value == "left" else "SRight"
             else:
-                effs.append(("Unknown",) + pos)
-                continue
+                raise Declined(f"insert_live_point: no rule for `{pos[2]}`")
             effs.append(("ComputeIdx",) + pos)
         elif txt == "self.live_points[:index-1]=self.live_points[1:index]":
             effs.append(("ShiftLive",) + pos)
@@ -123,13 +121,13 @@ def insert_effects(mod):
         elif isinstance(s, ast.Return):
             ret_ok = s.value is not None and _norm(s.value) == "index-1"
             if not ret_ok:
-                effs.append(("Unknown",) + pos)
+                raise Declined(f"insert_live_point: no rule for `{pos[2]}`")
         elif _touches_tracked(s):
-            effs.append(("Unknown",) + pos)
+            raise Declined(f"insert_live_point: no rule for `{pos[2]}` (different algorithm)")
         else:
             effs.append(("Skip",) + pos)
     names = [e[0] for e in effs]
-    if "ComputeIdx" not in names and "Unknown" not in names:
+    if "ComputeIdx" not in names:
         raise Declined("insert_live_point: no searchsorted on the live points (different algorithm)")
     return effs, side or "SLeft", ret_ok
 
@@ -148,8 +146,10 @@ def consume_effects(mod):
             if txt in ("worst=self.live_points[0].copy()", "worst=copy(self.live_points[0])",
                        "worst=copy.copy(self.live_points[0])", "worst=np.copy(self.live_points[0])"):
                 effs.append(("ReadWorst",) + pos)
+            elif txt == "worst=self.live_points[0]":
+                effs.append(("Unknown",) + pos)   # a view instead of a copy: known-bad shape
             else:
-                effs.append(("Unknown",) + pos)   # e.g. a view instead of a copy
+                raise Declined(f"consume_sample: no rule for `{pos[2]}`")
         elif txt == 'self.logLmin=worst["logL"]':
             effs.append(("SetLogLmin",) + pos)
         elif txt in ('self.state.increment(worst["logL"])', "self.state.increment(self.logLmin)"):
@@ -166,10 +166,8 @@ def consume_effects(mod):
                 raise Declined("consume_sample: two replacement loops")
             op_c = op
             effs.extend(sub)
-        elif isinstance(s, ast.If) and not _touches_tracked(s):
-            effs.append(("Skip",) + pos)
         elif _touches_tracked(s):
-            effs.append(("Unknown",) + pos)
+            raise Declined(f"consume_sample: no rule for `{pos[2]}`")
         else:
             effs.append(("Skip",) + pos)
     if op_c is None:
@@ -197,7 +195,7 @@ def _while(w, ins, ret_ok):
             # the rejecting branch must leave the tracked fields alone: it is part of Draw
             for t in s.orelse:
                 if _touches_tracked(t):
-                    effs.append(("Unknown", t.lineno, t.end_lineno, unparse(t).split("\n")[0]))
+                    raise Declined(f"consume_sample: rejecting branch touches a tracked field: `{unparse(t)}`")
             ends_break = False
             for t in s.body:
                 if is_logging(t):
@@ -209,17 +207,17 @@ def _while(w, ins, ret_ok):
                 elif tt == "index=self.insert_live_point(proposed)":
                     effs.extend(ins)
                 elif tt == "self.insertion_indices.append(index)":
-                    effs.append((("AppendIdx" if ret_ok else "Unknown"),) + tpos)
+                    effs.append(("AppendIdx",) + tpos)
                 elif isinstance(t, ast.Break):
                     ends_break = True
                 elif _touches_tracked(t):
-                    effs.append(("Unknown",) + tpos)
+                    raise Declined(f"consume_sample: no rule for `{tpos[2]}`")
                 else:
                     effs.append(("Skip",) + tpos)
             if not ends_break:
                 raise Declined("consume_sample: accepting branch does not leave the loop")
         elif _touches_tracked(s):
-            effs.append(("Unknown",) + pos)
+            raise Declined(f"consume_sample: no rule for `{pos[2]}`")
         else:
             effs.append(("Skip",) + pos)
     if not seen_draw or op_c is None:
